@@ -96,6 +96,17 @@ func convertReal(safe bool, v *variants.Variant, to variants.VariantType) (r *va
 	if err == nil && to != variants.Object && to != variants.Null && r.Type() != to {
 		return nil, nil, false
 	}
+	if err == nil && to != variants.Object && to != variants.Null && v.Type() != to {
+		// where the reference conversion table defines the payload, the operator reference is
+		// computed from the table's value, not from whatever the manager's Convert produced
+		if status, payload, known := refConvertUnsafe(v, to); known && status != "err" && !payloadEq(r.AsObject(), payload) {
+			nr := variants.EmptyVariant()
+			nr.SetAsObject(payload)
+			if nr.Type() == to {
+				return nr, nil, true
+			}
+		}
+	}
 	return r, err, true
 }
 
@@ -641,6 +652,22 @@ func init() {
 
 var c06SharedOps = map[bool]variants.IVariantOperations{}
 
+// calls that both managers (or at least the type-safe one) reject
+var c06RejectedPrelude = []func(m variants.IVariantOperations){
+	func(m variants.IVariantOperations) { m.Convert(variants.VariantFromInteger(5), variants.Array) },
+	func(m variants.IVariantOperations) { m.Convert(variants.VariantFromInteger(5), variants.Boolean) },
+	func(m variants.IVariantOperations) { m.Convert(variants.VariantFromLong(5), variants.Integer) },
+	func(m variants.IVariantOperations) { m.Convert(variants.VariantFromFloat(5), variants.Long) },
+	func(m variants.IVariantOperations) { m.Convert(variants.VariantFromDouble(5), variants.Float) },
+	func(m variants.IVariantOperations) { m.Convert(variants.VariantFromString("x"), variants.Integer) },
+	func(m variants.IVariantOperations) { m.Convert(variants.VariantFromBoolean(true), variants.Array) },
+	func(m variants.IVariantOperations) {
+		m.Add(variants.VariantFromArray([]*variants.Variant{}), variants.VariantFromInteger(1))
+	},
+	func(m variants.IVariantOperations) { m.Div(variants.VariantFromInteger(1), variants.VariantFromInteger(0)) },
+	func(m variants.IVariantOperations) { m.And(variants.VariantFromString("x"), variants.VariantFromString("y")) },
+}
+
 func sharedManager(safe bool) variants.IVariantOperations {
 	if m, ok := c06SharedOps[safe]; ok {
 		return m
@@ -736,6 +763,12 @@ func c06ResultIsolation(c *fw.Ctx, pool []poolVal, i int64, convertTo int) {
 		})
 		return a, b, r, outcomeStr(r, err, pv)
 	}
+	// a fixed prelude of rejected calls on the same manager: whatever a rejected call leaves
+	// behind (scratch results, error state) must not reach the results of the calls that follow
+	for _, pre := range c06RejectedPrelude {
+		pre := pre
+		fw.Try(func() { pre(m) })
+	}
 	a, b, r1, s1 := call()
 	if r1 == nil || r1 == a || r1 == b {
 		c.Outcome("result-is-an-operand-or-absent")
@@ -772,7 +805,15 @@ func c06ResultIsolation(c *fw.Ctx, pool []poolVal, i int64, convertTo int) {
 		variants.Empty = variants.EmptyVariant()
 		return
 	}
-	_, _, _, s2 := call()
+	_, _, r2, s2 := call()
+	if r2 != nil && r2 == r1 {
+		c.Violation("successive-results-share-one-variant:"+desc, "%s %s(%s, %s): two successive calls returned the same variant object, so the second call rewrote the result the caller still held", mgrName(safe), desc, pool[ia].label, pool[ib].label)
+		return
+	}
+	if r1.Type() != variants.String || r1.AsString() != "overwritten-by-caller" {
+		c.Violation("earlier-result-changed-by-later-call:"+desc, "%s %s(%s, %s): the variant returned by the first call (since overwritten by the caller) was changed by the second call to %s", mgrName(safe), desc, pool[ia].label, pool[ib].label, variantStr(r1))
+		return
+	}
 	if s1 != s2 {
 		c.Violation("result-not-isolated:"+desc, "%s %s(%s, %s) = %s, but after the caller overwrote that result the same call gives %s", mgrName(safe), desc, pool[ia].label, pool[ib].label, s1, s2)
 	}
